@@ -2212,3 +2212,85 @@ package apd
 //@   assigns z
 //@   allocates
 //@   ensures ret == nil ==> rep(z)
+// ---------------------------------------------------------------- the remaining thin wrappers: no panic, representation kept (values and texts are math/big's)
+//@ func math/big.(*Int).Scan
+//@   trusted math/big (on failure the value of z is undefined)
+//@   assigns *z
+//@   ensures ret == nil ==> !negzero(z)
+//@ func (*BigInt).Scan
+//@   layer bigint
+//@   props C16 C04
+//@   requires writable(z) && rep(z)
+//@   assigns z
+//@   allocates
+//@   ensures ret == nil ==> rep(z)
+//@ func math/big.(*Int).ModSqrt
+//@   trusted math/big (nil when x is not a square mod p; p must be an odd prime, else the result is unspecified; z untouched on nil)
+//@   assigns *z
+//@   ensures (ret == nil || ret == z) && (ret == z ==> !negzero(z) && val(z) == uf_modsqrt(old(val(x)), old(val(p)))) && (ret == nil ==> (negzero(z) <==> old(negzero(z))) && wordskept(z) && val(z) == old(val(z)))
+//@ func (*BigInt).ModSqrt
+//@   layer bigint
+//@   props C16 C05 C06
+//@   requires writable(z) && rep(x) && rep(p) && rep(z) && sep(z, x) && sep(z, p)
+//@   sample val(p) == 3 || val(p) == 5 || val(p) == 7 || val(p) == 101
+//@   assigns z
+//@   allocates
+//@   ensures (ret == nil || ret == z) && rep(z) && (ret == z ==> val(z) == uf_modsqrt(old(val(x)), old(val(p)))) && (ret == nil ==> val(z) == old(val(z)))
+//@ func math/big.(*Int).ProbablyPrime
+//@   trusted math/big
+//@   requires n >= 0
+//@   pure
+//@ func (*BigInt).ProbablyPrime
+//@   layer bigint
+//@   props C16 C04
+//@   requires rep(z) && n >= 0
+//@   sample n <= 20
+//@   pure
+//@ func math/big.(*Int).String
+//@   trusted math/big
+//@   pure
+//@ func (*BigInt).String
+//@   layer bigint
+//@   props C16 C04
+//@   nilable z
+//@   requires z != nil ==> rep(z)
+//@   pure
+//@ func math/big.(*Int).Text
+//@   trusted math/big (panics for a base outside 2..62)
+//@   requires 2 <= base && base <= 62
+//@   pure
+//@ func (*BigInt).Text
+//@   layer bigint
+//@   props C16 C04
+//@   nilable z
+//@   requires (z != nil ==> rep(z)) && 2 <= base && base <= 62
+//@   pure
+//@ func math/big.(*Int).Bits
+//@   trusted math/big
+//@   pure
+//@ func (*BigInt).Bits
+//@   layer bigint
+//@   props C16 C04
+//@   requires rep(z)
+//@   pure
+//@ func (*BigInt).Size
+//@   layer bigint
+//@   props C16 C04
+//@   requires rep(z)
+//@   pure
+//@ func (*Decimal).Size
+//@   props C04
+//@   exported
+//@   requires inv(d)
+//@   pure
+//@ func (*Decimal).UnmarshalText
+//@   props C04 C06
+//@   exported
+//@   requires writable(d)
+//@   assigns d
+//@   ensures [wf] ret == nil ==> inv(d)
+//@ func (*Decimal).MarshalText
+//@   props C04
+//@   exported
+//@   nilable d
+//@   requires d != nil ==> inv(d)
